@@ -98,3 +98,84 @@ pub open spec fn keys_kept(old_reg: &TypeRegistry, new_reg: &TypeRegistry) -> bo
     forall|q: ItemPath| #![trigger new_reg.types@.contains_key(q)] old_reg.types@.contains_key(q) ==> new_reg.types@.contains_key(q)
 }
 }
+verus!{
+// ---------- what a resolution attempt may do to the modules (C05 C14 C15 C17 C10) ----------
+/// module `b` is module `a` with, at most, more registered definition paths (a generated vftable item): the source,
+/// the impl blocks, the extern values, the backend blocks and the doc are the ones `add_module` stored
+pub open spec fn module_kept(a: crate::semantic::Module, b: crate::semantic::Module) -> bool {
+    &&& b.path == a.path
+    &&& b.ast == a.ast
+    &&& b.extern_values == a.extern_values
+    &&& b.impls == a.impls
+    &&& b.backends == a.backends
+    &&& b.doc == a.doc
+    &&& a.definition_paths@.subset_of(b.definition_paths@)
+}
+/// no module is added or removed, and every module is kept in the sense of `module_kept`
+pub open spec fn modules_frame(a: Map<ItemPath, crate::semantic::Module>, b: Map<ItemPath, crate::semantic::Module>) -> bool {
+    &&& b.dom() == a.dom()
+    &&& forall|k: ItemPath| #![trigger b[k]] a.contains_key(k) ==> module_kept(a[k], b[k])
+}
+pub proof fn lemma_modules_frame_trans(a: Map<ItemPath, crate::semantic::Module>, b: Map<ItemPath, crate::semantic::Module>, c: Map<ItemPath, crate::semantic::Module>)
+    requires modules_frame(a, b), modules_frame(b, c),
+    ensures modules_frame(a, c),
+{
+    assert forall|k: ItemPath| #![trigger c[k]] a.contains_key(k) implies module_kept(a[k], c[k]) by {
+        assert(b.contains_key(k));
+        assert(module_kept(a[k], b[k]));
+        assert(module_kept(b[k], c[k]));
+    }
+}
+/// an extern value after the resolution of the types (C15 "a mutable reference of type T", C10 "extern values are
+/// resolved after all types"): name, visibility and address are kept, a still unresolved type becomes what the
+/// scoping rules select for it in the scope of its module
+pub open spec fn extern_value_resolved(reg: &TypeRegistry, scope: Seq<ItemPath>, before: ExternValue, after: ExternValue) -> bool {
+    &&& after.visibility == before.visibility
+    &&& after.name == before.name
+    &&& after.address == before.address
+    &&& match before.type_ {
+            Type::Unresolved(t) => Some(after.type_) == spec_resolve_type(reg, scope, t),
+            _ => after.type_ == before.type_,
+        }
+}
+pub open spec fn extern_values_resolved(reg: &TypeRegistry, scope: Seq<ItemPath>, before: Seq<ExternValue>, after: Seq<ExternValue>, n: int) -> bool {
+    &&& after.len() == before.len()
+    &&& forall|i: int| 0 <= i < n ==> extern_value_resolved(reg, scope, before[i], #[trigger] after[i])
+}
+/// some extern value among the first n has a type that the scoping rules cannot resolve
+pub open spec fn extern_value_unresolvable(reg: &TypeRegistry, scope: Seq<ItemPath>, evs: Seq<ExternValue>, n: int) -> bool {
+    exists|i: int| 0 <= i < n && (#[trigger] evs[i]).type_ is Unresolved && spec_resolve_type(reg, scope, evs[i].type_->Unresolved_0) is None
+}
+pub open spec fn module_externs_resolved(reg: &TypeRegistry, a: crate::semantic::Module, b: crate::semantic::Module) -> bool {
+    &&& b.path == a.path
+    &&& b.ast == a.ast
+    &&& b.impls == a.impls
+    &&& b.backends == a.backends
+    &&& b.doc == a.doc
+    &&& b.definition_paths == a.definition_paths
+    &&& extern_values_resolved(reg, module_scope(&a), a.extern_values@, b.extern_values@, a.extern_values@.len() as int)
+}
+/// the modules of the resolved state against the modules `add_module` stored, one predicate per thing the
+/// back end reads from a module (`definitions()`, `extern_values`, `backends`, `doc()`): what is *not* read after
+/// the build (path, source, impl blocks) is deliberately not demanded of the resolved state
+pub open spec fn modules_defs_kept(a: Map<ItemPath, crate::semantic::Module>, b: Map<ItemPath, crate::semantic::Module>) -> bool {
+    &&& b.dom() == a.dom()
+    &&& forall|k: ItemPath| #![trigger b[k]] a.contains_key(k) ==> a[k].definition_paths@.subset_of(b[k].definition_paths@)
+}
+pub open spec fn modules_backends_kept(a: Map<ItemPath, crate::semantic::Module>, b: Map<ItemPath, crate::semantic::Module>) -> bool {
+    forall|k: ItemPath| #![trigger b[k]] a.contains_key(k) ==> b[k].backends == a[k].backends
+}
+pub open spec fn modules_doc_kept(a: Map<ItemPath, crate::semantic::Module>, b: Map<ItemPath, crate::semantic::Module>) -> bool {
+    forall|k: ItemPath| #![trigger b[k]] a.contains_key(k) ==> b[k].doc == a[k].doc
+}
+/// the extern values are the stored ones with their types resolved in the module's scope against the final registry
+pub open spec fn modules_externs_built(reg: &TypeRegistry, a: Map<ItemPath, crate::semantic::Module>, b: Map<ItemPath, crate::semantic::Module>) -> bool {
+    forall|k: ItemPath| #![trigger b[k]] a.contains_key(k) ==>
+        extern_values_resolved(reg, module_scope(&a[k]), a[k].extern_values@, b[k].extern_values@, a[k].extern_values@.len() as int)
+}
+/// what the loop over `modules.values_mut()` does (contract of the trusted segment `build__externs`)
+pub open spec fn modules_externs_resolved(reg: &TypeRegistry, a: Map<ItemPath, crate::semantic::Module>, b: Map<ItemPath, crate::semantic::Module>) -> bool {
+    &&& b.dom() == a.dom()
+    &&& forall|k: ItemPath| #![trigger b[k]] a.contains_key(k) ==> module_externs_resolved(reg, a[k], b[k])
+}
+}
